@@ -30,7 +30,7 @@ def actor_cases(rng, tier):
         lib = rng.choice(L.LIBS)
         item = L.gen_impl(rng, lib, nmax=8 if k % 3 else 4)
         imp = L.read_impl(item)
-        base = {"lib": lib, "debut": rng.random() < 0.3}
+        base = {"lib": lib, "debut": rng.random() < 0.3, "show": rng.random() < 0.25}
         if rng.random() < 0.25:
             base["name"] = rng.choice(["Custom", "my_thing", "X9"])
         el = L.eligible_names(base, imp)
@@ -64,7 +64,7 @@ def family_cases(rng, tier):
         written = lock == "Mutex" or rng.random() < 0.5
         item = L.gen_impl(rng, lib, family=True, lock=lock, nmax=6)
         imp = L.read_impl(item)
-        base = {"lib": lib, "lock": lock, "lock_written": written, "debut": rng.random() < 0.3}
+        base = {"lib": lib, "lock": lock, "lock_written": written, "debut": rng.random() < 0.3, "show": rng.random() < 0.2}
         if rng.random() < 0.4:
             base["name"] = rng.choice(["MyActor", "Shared"])
         el = L.eligible_names(base, imp)
@@ -80,6 +80,8 @@ def family_cases(rng, tier):
                     m["filter"] = (rng.choice(["include", "exclude"]), s)
                 if rng.random() < 0.2:
                     m["name"] = "Other"
+                if rng.random() < 0.25:
+                    m["show"] = True
                 members.append(m)
             cases.append({"kind": "family", "cfg": dict(base, members=members), "item": item, "imp": imp, "tag": "family"})
         # a member naming a self-consuming / private method: rejected
